@@ -129,7 +129,7 @@ def argminAbs : List Rat → Rat → Nat
 
 /-- `start = argmin - window // 2`, negative → 0, above `len(x) - window` → `len(x) - window` -/
 def startIdx (xs : List Rat) (w : Nat) (x : Rat) : Nat :=
-  Nat.min (argminAbs xs x - w / 2) (xs.length - w)
+  min (argminAbs xs x - w / 2) (xs.length - w)
 
 /-- `np.prod((x - x_wd[idxs]) / diff_x[idxs, i])`: the i-th Lagrange basis value on the window -/
 def basis (xw : List Rat) (i : Nat) (x : Rat) : Rat :=
@@ -187,7 +187,7 @@ def searchLeft (xs : List Rat) (v : Rat) : Nat := (xs.filter (· < v)).length
 /-- `idx = searchsorted(x, x_new).clip(1, n-1)`; `lo = idx-1`, `hi = idx`;
 `y_lo + (y_hi - y_lo) / (x_hi - x_lo) * (x_new - x_lo)` componentwise -/
 def linearAt (xs : List Rat) (rows : List (List Rat)) (dim : Nat) (x : Rat) : List Rat :=
-  let idx := Nat.max 1 (Nat.min (searchLeft xs x) (xs.length - 1))
+  let idx := max 1 (min (searchLeft xs x) (xs.length - 1))
   let xlo := xs.getD (idx - 1) 0
   let xhi := xs.getD idx 0
   let ylo := rows.getD (idx - 1) []
